@@ -308,6 +308,45 @@ func TestC17(t *testing.T) {
 			do("bound", &Ty{Kind: "bitvec", N: k}, gb.val(&Ty{Kind: "bitvec", N: k}))
 			do("bound", &Ty{Kind: "vec", Elem: &Ty{Kind: "u", N: 2}, N: k}, gb.val(&Ty{Kind: "vec", Elem: &Ty{Kind: "u", N: 2}, N: k}))
 		}
+		// series spanning more than 512 (and, thorough, 1024 / 4096) bottom chunks: cursors and
+		// stack indices beyond 8 bits
+		bigChunks := []uint64{513}
+		if thorough() {
+			bigChunks = []uint64{513, 1025, 4097}
+		}
+		for _, ch := range bigChunks {
+			gg := &gen{r: newRng(int64(1700 + ch)), maxElem: 10}
+			for _, spec := range []struct {
+				ty  *Ty
+				per uint64
+			}{
+				{&Ty{Kind: "vec", Elem: &Ty{Kind: "u", N: 8}, N: ch*4 - 1}, 4},
+				{&Ty{Kind: "list", Elem: &Ty{Kind: "u", N: 32}, N: 1 << 40}, 1},
+				{&Ty{Kind: "list", Elem: &Ty{Kind: "u", N: 2}, N: ch * 16}, 16},
+				{&Ty{Kind: "bitlist", N: 1 << 40}, 256},
+				{&Ty{Kind: "bitvec", N: ch*256 - 3}, 256},
+			} {
+				ln := int(ch*spec.per) - 1
+				if spec.ty.Kind == "vec" || spec.ty.Kind == "bitvec" {
+					ln = int(spec.ty.N)
+				}
+				var v *Val
+				if spec.ty.Kind == "bitlist" || spec.ty.Kind == "bitvec" {
+					bits := make([]bool, ln)
+					for i := range bits {
+						bits[i] = gg.r.Intn(2) == 0
+					}
+					v = &Val{Kind: "bits", Bits: bits}
+				} else {
+					vs := make([]*Val, ln)
+					for i := range vs {
+						vs[i] = gg.val(spec.ty.Elem)
+					}
+					v = &Val{Kind: "seq", Seq: vs}
+				}
+				do("big", spec.ty, v)
+			}
+		}
 		g := &gen{r: newRng(171), maxElem: 40}
 		for k := 0; k < n; {
 			ty := g.ty(1 + g.r.Intn(3))
